@@ -2,8 +2,11 @@
 
 Proof: PsV/Props/C13.lean — checks_imply_needs, needs_imply_checks, needs_imply_safe, checks_never_fault,
 fit_never_faults, reject_leaves_unchanged, changed_only_after_checks, inconsistent_rejected,
-cwrapper_nonzero_iff_reject, cwrapper_reject_unchanged (about the repaired check block, fixes/C13-1..6), and the
-decided witnesses asIs_* of each missing check in the upstream code.
+cwrapper_nonzero_iff_reject, cwrapper_reject_unchanged (about the repaired check block, fixes/C13-1..6), the
+decided witnesses asIs_* of each missing check in the upstream code; integer widths: noWrap_imply_sizesFit,
+needs_noWrap_imply_safeW, basis_clause_necessary, head_basis_counter_overflows, head_ncoeffs_wraps; whole member function:
+entry_occupied_refused, entry_failure_leaves_unchanged, entry_never_faults, entry_ok_iff,
+entry_solver_failure_leaves_empty, entry_inconsistent_rejected, entry_upstream_eq_fit, cwrapperEntry_*.
 Tie: harness/fit_harness.cpp runs the real splinetable<>::fit and splinetable_glamfit (ASan+UBSan build of the working
 tree, one forked child per case) on points of the cross product valid x invalid of every argument; `psvdriver C13` runs
 PsV.Fit.fit / cGlamfit on the same lines; verdict (success + table shape | which exception, which dimension) must be equal.
@@ -73,7 +76,7 @@ def split_impl(line):
     fields = {}
     cut = len(w)
     for n, t in enumerate(w):
-        if "=" in t and t.split("=")[0] in ("nc", "finite", "table", "pop", "c", "ctable", "cnull", "retried"):
+        if "=" in t and t.split("=")[0] in ("nc", "finite", "table", "pop", "popv", "c", "ctable", "cnull", "retried"):
             cut = min(cut, n); k, v = t.split("=", 1); fields[k] = v
     return " ".join(w[:cut]), fields
 
@@ -81,7 +84,7 @@ def split_impl(line):
 def split_model(line):
     w = line.split(); fields = {}; cut = len(w)
     for n, t in enumerate(w):
-        if t.startswith("c=") or t.startswith("cnull="):
+        if t.split("=")[0] in ("c", "cnull", "cgf", "pop", "gf", "nowrap", "ud") and "=" in t:
             cut = min(cut, n); k, v = t.split("=", 1); fields[k] = v
     return " ".join(w[:cut]), fields
 
@@ -102,6 +105,7 @@ def build(ctx, mode="san"):
 def compare(ctx, cases, impl, model, stats):
     n = 0; seen = set(); hist = collections.Counter(); sample_budget = 4
     sigs = collections.Counter()
+    stats_extra = collections.Counter()
     def report(sig, replay, what):
         # one VIOLATION line (with its replay file) per failure class; further inputs of the same class are counted
         sigs[sig] += 1
@@ -136,10 +140,22 @@ def compare(ctx, cases, impl, model, stats):
             if not (iv.startswith("reject") and kind in ARG_ERRORS):
                 report("accepts-inconsistent:" + what[0].split(",")[0], replay,
                            "inconsistent arguments (%s) are not rejected by an argument error: %s" % ("; ".join(what), i_line[:300]))
-            elif fi.get("table") != "unchanged" or fi.get("pop") != "unchanged":
+            elif fi.get("table") != "unchanged":
                 report("reject-changes-table", replay, "fit threw %s but the table changed: %s" % (iv, i_line[:300]))
-        if iv.startswith("glamfail") or (iv.startswith("reject") is False and fi.get("table") == "CHANGED"):
-            pass  # a numerical failure after the mutation is outside C13 (the arguments were consistent)
+        # failure behind the sanity block (GLAM failure, allocation failure): the arguments were consistent, so this is not
+        # an argument error -- but the caller must get an exception and an EMPTY table (storage guard; model: Ext.glamFailed
+        # / Ext.badAlloc, theorem entry_solver_failure_leaves_empty)
+        if (iv.startswith("glamfail") or iv.startswith("bad_alloc")) and fi.get("table") != "unchanged":
+            report("failure-leaves-table", replay, "fit failed behind the sanity block (%s) and left a table behind: %s" % (iv, i_line[:300]))
+        # the same call on a populated table: refused for every argument tuple, nothing changes (entry_occupied_refused)
+        if fi.get("popv") is not None and (fi.get("popv") != "runtime:occupied" or fi.get("pop") != "unchanged"):
+            report("occupied-not-refused" if fi.get("popv") != "runtime:occupied" else "reject-changes-table", replay,
+                   "fit on a populated table must throw 'already contains data' and change nothing: popv=%s pop=%s" % (fi.get("popv"), fi.get("pop")))
+        stats_extra["accepted_nowrap0"] += fm.get("nowrap") == "0" and mv.startswith("ok shape")
+        stats_extra["accepted_underdetermined"] += fm.get("ud") == "1" and mv.startswith("ok shape")
+        stats_extra["glamfail"] += iv.startswith("glamfail")
+        if fm.get("ud") == "1" and iv.startswith("ok shape"):
+            stats_extra["underdetermined_reported_success_nonfinite" if fi.get("finite") == "0" else "underdetermined_reported_success_finite"] += 1
         if "c" in fi and fi["c"] != "na":
             threw = not iv.startswith("ok")
             if (fi["c"] != "0") != threw:
@@ -158,6 +174,11 @@ def compare(ctx, cases, impl, model, stats):
             ok = mv.startswith("ok shape")
         elif iv != mv:
             ok = False
+        # populated table / failure path: model and implementation must agree
+        if ok and fm.get("pop") != "occupied": ok = False
+        if ok and "popv" in fi and fi["popv"] != "runtime:occupied": ok = False
+        if ok and iv == "glamfail" and not (fm.get("gf") == "empty" and fi.get("table") == "unchanged"): ok = False
+        if ok and iv == "glamfail" and fi.get("c", "na") != "na" and not (fm.get("cgf") == "1e" and fi.get("ctable") == "unchanged"): ok = False
         if ok and ("c" in fi) != ("c" in fm): ok = False
         if ok and fi.get("c", "na") != "na":
             expect = fm.get("c") if iv != "glamfail" else "1"
@@ -174,6 +195,7 @@ def compare(ctx, cases, impl, model, stats):
     if sigs:
         ctx.coverage["failure_classes"] = dict(sigs)
         ctx.note("failing inputs per class: %s" % dict(sigs))
+    ctx.coverage.setdefault("model_classes", {}).update({k: int(v) for k, v in stats_extra.items()})
     return n, seen, hist
 
 
@@ -216,17 +238,18 @@ def run(ctx):
     ctx.coverage["evaluations"] = n
     ctx.coverage["distinct_nontrivial"] = len(seen)
     ctx.coverage["rule"] = ("cases from harness/fit_harness.cpp gen (VERIF_SEED): 36 plain valid fits, every single (argument, variant) "
-                            "in 1..3 dimensions twice, and random points of the cross product (each argument independently valid or one of its "
+                            "in 1..3 dimensions twice, 8 consistent cases of absurd size (2^64 coefficients and more in 8..16 dimensions: the "
+                            "failure path behind the sanity block), and random points of the cross product (each argument independently valid or one of its "
                             "invalid variants); every case is non-trivial (a real fit() call on a fresh table, a second one on a populated "
-                            "table when rejected, and the C wrapper when expressible); distinct = distinct argument tuples")
+                            "table, and the C wrapper when expressible); distinct = distinct argument tuples")
     dist = json.load(open(stats)); dist["verdicts"] = dict(hist)
     ctx.coverage["input_distribution"] = dist
     ctx.assumptions += [
         "the ndsparse struct is well formed (ranges[ndim], i[ndim][rows], x[rows]) — C arrays carry no length, fit cannot check it",
-        "knot vectors have fewer than 2^32 entries; products of sizes and the int parameters of bsplinebasis/divided_diffs do not wrap (sizes < 2^31)",
         "only the index arithmetic of fit/add_penalty_term/calc_penalty/divided_diffs/bsplinebasis/bspline is modelled; CHOLMOD, slicemultiply, box, the NNLS and Cholesky solvers are covered by the sanitizer run only",
-        "whether fit() is applied to an empty table is not part of C13 (C20)",
-        "a numerical failure (GLAM fit failed) after the checks is not an argument error; the table is then already populated",
+        "sizes: the decidable condition NoWrapB (ndim < 2^32, every knot vector < 2^31, ranges[i]*nsplines[i] < 2^31, fewer than 2^63 coefficients) replaces 'sizes < 2^31'; the sanity block does not imply it (theorem head_basis_counter_overflows, proposed fix C13-7)",
+        "a failure behind the sanity block (GLAM fit failed / bad_alloc) is not an argument error; at HEAD the table is then empty again (checked on the 'huge' cases; bad_alloc cannot be produced under ASan and is not exercised in the quick tier)",
+        "which numbers make the solver fail is C09/C10's subject; C13 proves only that UnderdeterminedB arguments (no smoothing, fewer data points than coefficients) are accepted although their normal matrix is singular",
     ]
 
 
